@@ -181,6 +181,13 @@ def check(an: Analysis) -> None:
                 alts = [unwrap(x) for x in sc.values_of(v.id)] or [v]
             elif isinstance(v, ast.Name) and v.id != mp:
                 alts = [unwrap(ds.single_value(v.id))]
+            elif isinstance(v, ast.Name):
+                # the parameter re-bound on the way (`metric = merge(current, metric)` in front of an unconditional store)
+                from ..kinds import param_values_at
+
+                unbound_, rebound_ = param_values_at(gs, sc, st, mp)
+                if rebound_:
+                    alts = [unwrap(x) for x in rebound_] + ([v] if unbound_ else [])
             for v in alts:
                 if present:
                     ok = isinstance(v, ast.Call) and is_name(v.func, "merge") and len(v.args) == 2 and is_stored(v.args[0]) and is_name(unwrap(v.args[1]), mp)
